@@ -2001,6 +2001,9 @@ func (t *TicketsOrKeys) Decode(d *Decoder) error {
 	// Otherwise, it means Tickets is not nil
 
 	firstByte, err := d.ReadPointerFlag()
+	if err != nil {
+		return err
+	}
 	isTickets := firstByte == 0
 	isKeys := firstByte == 1
 
@@ -2032,7 +2035,7 @@ func (t *TicketsOrKeys) Decode(d *Decoder) error {
 		return nil
 	}
 
-	return nil
+	return fmt.Errorf("invalid TicketsOrKeys tag %#x", firstByte)
 }
 
 // BandersnatchRingCommitment
@@ -3140,7 +3143,7 @@ func (o *OperandOrDeferredTransfer) Decode(decoder *Decoder) error {
 		o.DeferredTransfer = deferredTransfer
 		return nil
 	}
-	return nil
+	return fmt.Errorf("invalid OperandOrDeferredTransfer tag %#x", firstByte)
 }
 
 func (e *ExtrinsicData) Decode(d *Decoder) error {
